@@ -160,6 +160,12 @@ def sizeSpec (s : String) (next max : Nat) : Option Nat :=
 def lastOverride (l : List (Nat × Nat)) (ch : Nat) (dflt : Nat) : Nat :=
   l.foldl (fun acc p => if p.1 == ch then p.2 else acc) dflt
 
+/-- `input_buffer_allocate` / `output_buffer_allocate` (both `filled` flags): per-channel lengths, capacity reached,
+all zero -/
+def bufsStatus (nch inMax outMax : Nat) : String :=
+  let sh (len : Nat) : String := ",".intercalate ((List.range nch).map fun _ => toString len) ++ ":1:1"
+  s!"ok b {sh 0} {sh inMax} {sh 0} {sh outMax}"
+
 /-! ### async ops, generic in the sample type -/
 
 section
@@ -290,6 +296,7 @@ def opAsync (ofF : Float → σ) (s : AState Float σ) (consumed : Nat) (op : St
     let s' := s.reset
     (s', 0, s!"ok | {gettersA s'} | a0", false)
   | "get" => (s, consumed, s!"ok | {gettersA s} | a0", false)
+  | "bufs" => (s, consumed, s!"{bufsStatus s.nch s.inputFramesMax s.outputFramesMax} | {gettersA s} | a+", false)
   | _ => bad
 
 def newAsync (kind : AKind) (p : List String) : Option (Except CErr (AState Float σ)) :=
@@ -332,7 +339,7 @@ def FftSlot.unit (f : FftSlot σ) : FftUnit σ (Array σ) :=
   else { init := #[], run := fun st _ => (List.replicate f.s.fftOut (SNum.zero (ρ := Float)), st) }
 
 def gettersF (s : FState σ (Array σ)) : String :=
-  s!"g {s.inputFramesNext} {s.inputFramesMax DivArith.f32} {s.outputFramesNext DivArith.f32} {s.outputFramesMax} {s.outputDelay} {s.nch}"
+  s!"g {s.inputFramesNext} {s.inputFramesMax (DivArith.ofNum Float)} {s.outputFramesNext (DivArith.ofNum Float)} {s.outputFramesMax} {s.outputDelay} {s.nch}"
 
 def f32Cutoff (n : Nat) : Float :=
   (Rubato.Gen.Win.calculate_cutoff (ρ := Float) (σ := Float32) n .blackmanHarris2).toFloat
@@ -341,7 +348,7 @@ def opFft (ofF : Float → σ) (f : FftSlot σ) (consumed : Nat) (op : String) (
     FftSlot σ × Nat × String × Bool :=
   let s := f.s
   let bad := (f, consumed, "bad-op", false)
-  let da := DivArith.f32
+  let da := (DivArith.ofNum Float)
   let u := f.unit
   let inNext := s.inputFramesNext
   let inMax := s.inputFramesMax da
@@ -422,15 +429,19 @@ def opFft (ofF : Float → σ) (f : FftSlot σ) (consumed : Nat) (op : String) (
     let s' := s.reset da u (SNum.zero (ρ := Float))
     ({ f with s := s' }, 0, s!"ok | {gettersF s'} | a0", false)
   | "get" => (f, consumed, s!"ok | {gettersF s} | a0", false)
+  | "bufs" => (f, consumed, s!"{bufsStatus s.nch inMax outMax} | {gettersF s} | a+", false)
   | _ => bad
 
-def newFft (kind : FKind) (p : List String) : Option (Except CErr (FftSlot σ)) :=
-  let da := DivArith.f32
+def newFft (kind : FKind) (p0 : List String) : Option (Except CErr (FftSlot σ)) :=
+  -- a trailing `ctl` asks for the control plane only (long streams whose sample values nobody looks at)
+  let ctlOnly := p0.getLast? == some "ctl"
+  let p := if ctlOnly then p0.dropLast else p0
+  let da := (DivArith.ofNum Float)
   let mk (ri ro c sub n : Nat) : Except CErr (FftSlot σ) :=
     -- sizes first (they do not depend on the unit), then the tables, then the state with the real unit
     let wanted := if kind == .fftIo then c else c / sub
     let (fi, fo) := fftSizes da ri ro wanted (kind == .fftOut)
-    let modelled := decide (fi ≤ fftModelLimit) && decide (fo ≤ fftModelLimit) && decide (0 < fi) && decide (0 < fo)
+    let modelled := !ctlOnly && decide (fi ≤ fftModelLimit) && decide (fo ≤ fftModelLimit) && decide (0 < fi) && decide (0 < fo)
     let tables : UnitTables σ :=
       if modelled then UnitTables.make (ρ := Float) (fftCutoff f32Cutoff fi fo) fi fo
       else { fftIn := fi, fftOut := fo, twIn := (#[], #[]), twOut := (#[], #[]), filterF := #[] }
